@@ -501,7 +501,7 @@ func init() {
 	core.Register(&core.Check{
 		Spec: core.Spec{
 			Prop:        "C02",
-			Rule:        "At quiescent points (every 8-10 operations and at the end) of (a) single-node sequential histories whose ledger is a single chain (detected on the snapshot: any overdrawn wallet there is a violation) and (b) conflicting histories (same funds spent through different nodes before gossip crosses, partitions healed, forged branches, then merged) the union of confirmed vertices (live+checkpoint) of every node is summed with big integers: no wallet but the genesis issuer may have spent more than it received, totals must equal what the genesis wallet issued and never exceed the supply; with a single tip the node's own CalculateBalance answers must equal the reference per wallet and add up. Overdrawn wallets are classified by the C01 per-vertex verdicts: own-history / single-chain (violations) vs cross-branch (known finding). Non-trivial = every quiescent evaluation; distinct by (chain?, confirmed-count bucket, tips bucket, checkpoint present, overdrawn count). Batch 0 first replays the fixed 2-node witness of the known finding. Fixed witness in every run: a wallet owning (2^64-1).999... spends 2^63.6, then (2^63-1).5 (whole parts add up to exactly 2^64-1 with a fractional carry, the running total sits on the wrap-around boundary), then (2^63-1).4; what exceeds the funds must not be confirmed. One batch runs the truncation-race scenario (overdrawing tentative tip, truncation racing with 24 proposals) under the conservation oracle. Overspend probes: at the end of every long scenario (single tip) each wallet proposes one smallest unit more than it owns over all vertices of the ledger, each counted once, followed by proposals that make the node judge that tip; every second wallet then spends exactly what it owns. One batch runs the probes on wallets that own amounts on both sides of the currency seam. After every multi-node scenario a fresh node syncs from node 0 and is probed on the tips it loaded and again after merging them; one batch probes a plain 1040-vertex chain right after its truncation. One transaction handed to two nodes at once (the gossiped vertex verifies slowly while the node seals its own copy): confirmed once.",
+			Rule:        "At quiescent points (every 8-10 operations and at the end) of (a) single-node sequential histories whose ledger is a single chain (detected on the snapshot: any overdrawn wallet there is a violation) and (b) conflicting histories (same funds spent through different nodes before gossip crosses, partitions healed, forged branches, then merged) the union of confirmed vertices (live+checkpoint) of every node is summed with big integers: no wallet but the genesis issuer may have spent more than it received, totals must equal what the genesis wallet issued and never exceed the supply; with a single tip the node's own CalculateBalance answers must equal the reference per wallet and add up. Overdrawn wallets are classified by the C01 per-vertex verdicts: own-history / single-chain (violations) vs cross-branch (known finding). Non-trivial = every quiescent evaluation; distinct by (chain?, confirmed-count bucket, tips bucket, checkpoint present, overdrawn count). Batch 0 first replays the fixed 2-node witness of the known finding. Fixed witness in every run: a wallet owning (2^64-1).999... spends 2^63.6, then (2^63-1).5 (whole parts add up to exactly 2^64-1 with a fractional carry, the running total sits on the wrap-around boundary), then (2^63-1).4; what exceeds the funds must not be confirmed. One batch runs the truncation-race scenario (overdrawing tentative tip, truncation racing with 24 proposals) under the conservation oracle. Overspend probes: at the end of every long scenario (single tip) each wallet proposes one smallest unit more than it owns over all vertices of the ledger, each counted once, followed by proposals that make the node judge that tip; every second wallet then spends exactly what it owns. One batch runs the probes on wallets that own amounts on both sides of the currency seam. After every multi-node scenario a fresh node syncs from node 0 and is probed on the tips it loaded and again after merging them; one batch probes a plain 1040-vertex chain right after its truncation. One transaction handed to two nodes at once (the gossiped vertex verifies slowly while the node seals its own copy): confirmed once. A trusted sealer's vertices without spice on overdrawing tips of a stranger (gossip, orphan buffer, one of two parents).",
 			Assumptions: []string{ledgerAssume, "scenarios of this check use no trusted sealers (the statement excludes vertices sealed under the exemption)"},
 			MinEvals:    100, MinNontriv: 10,
 		},
@@ -511,7 +511,7 @@ func init() {
 	core.Register(&core.Check{
 		Spec: core.Spec{
 			Prop:        "C06",
-			Rule:        "At quiescent points of random multi-node histories (all generators, self transfers, boundary amounts, post-truncation ledgers) CalculateBalance is queried for every wallet, node wallet, sealer and a never-seen address, repeatedly (map order decides the tip): every answer must equal checkpoint + inflow - outflow over one current tip and its live ancestors (big integers, from the snapshot), an error is admissible only when some tip's sum is negative or unrepresentable; ledger digest equal before/after; nodes with identical vertex sets hold identical checkpoint funds and, single-tipped, answer identically. Non-trivial = queries on ledgers with several tips, checkpoint funds, invalid sums or issuer=receiver wallets; distinct by (tips bucket, distinct sums, invalid, funds, self). One batch asks through the node's API instead: on a real node (notary + gossip services) both wallets of a transfer ask notary Balance before (so that an answer is memorised) and after a transfer sealed on proposal, a contract with spice confirmed / rejected by its receiver, and a gossiped vertex; the answer must become the ledger's own CalculateBalance answer (bounded polling, the node invalidates in goroutines; only a value that stays wrong is a violation). A fixed single-chain scenario funds a wallet, checkpoints the funding, lets the wallet spend everything and checkpoints that spend: the balance must be exactly zero. The notary-level batch also admits a transfer through the orphan retry path (known finding: memorised balances stay stale there). Around every judged truncation four clients keep asking for balances; every answer, computed before, during or after the cut, must be the pre-truncation answer. The notary workload also forgets the request throttle before gossiped changes arrive.",
+			Rule:        "At quiescent points of random multi-node histories (all generators, self transfers, boundary amounts, post-truncation ledgers) CalculateBalance is queried for every wallet, node wallet, sealer and a never-seen address, repeatedly (map order decides the tip): every answer must equal checkpoint + inflow - outflow over one current tip and its live ancestors (big integers, from the snapshot), an error is admissible only when some tip's sum is negative or unrepresentable; ledger digest equal before/after; nodes with identical vertex sets hold identical checkpoint funds and, single-tipped, answer identically. Non-trivial = queries on ledgers with several tips, checkpoint funds, invalid sums or issuer=receiver wallets; distinct by (tips bucket, distinct sums, invalid, funds, self). One batch asks through the node's API instead: on a real node (notary + gossip services) both wallets of a transfer ask notary Balance before (so that an answer is memorised) and after a transfer sealed on proposal, a contract with spice confirmed / rejected by its receiver, and a gossiped vertex; the answer must become the ledger's own CalculateBalance answer (bounded polling, the node invalidates in goroutines; only a value that stays wrong is a violation). A fixed single-chain scenario funds a wallet, checkpoints the funding, lets the wallet spend everything and checkpoints that spend: the balance must be exactly zero. The notary-level batch also admits a transfer through the orphan retry path (known finding: memorised balances stay stale there). Around every judged truncation four clients keep asking for balances; every answer, computed before, during or after the cut, must be the pre-truncation answer. The notary workload also forgets the request throttle before gossiped changes arrive. A wallet that proposed more than it holds asks for its balance while the tentative tip stands and after it was dropped: an error stays an error, never a memorised number.",
 			Assumptions: []string{ledgerAssume},
 			MinEvals:    500, MinNontriv: 8,
 		},
